@@ -89,3 +89,32 @@ func Flock(fd int, how int) error {
 
 func Fstat(fd int, st *Stat_t) error { return syscall.Fstat(fd, st) }
 func Getpid() int                    { return 1000 + vs.S.Cur().ID }
+
+// POSIX record locks (fcntl F_SETLK/F_SETLKW) belong to the *process*, not to the open file description: requests that are threads of one
+// process never conflict with each other, whatever descriptors they use (and the harness runs one process). The call is a scheduling point and
+// always succeeds at once; F_GETLK reports the range as unlocked.
+const (
+	F_RDLCK  = syscall.F_RDLCK
+	F_WRLCK  = syscall.F_WRLCK
+	F_UNLCK  = syscall.F_UNLCK
+	F_GETLK  = syscall.F_GETLK
+	F_SETLK  = syscall.F_SETLK
+	F_SETLKW = syscall.F_SETLKW
+)
+
+type Flock_t = syscall.Flock_t
+
+var RecordLocks int
+
+func FcntlFlock(fd uintptr, cmd int, lk *Flock_t) error {
+	var st syscall.Stat_t
+	if err := syscall.Fstat(int(fd), &st); err != nil {
+		return err
+	}
+	RecordLocks++
+	vs.PointNote("fcntl record lock cmd=%d type=%d fd=%d ino=%d (process-owned: no conflict between threads)", cmd, lk.Type, fd, st.Ino)
+	if cmd == F_GETLK {
+		lk.Type = F_UNLCK
+	}
+	return nil
+}
